@@ -262,7 +262,7 @@ _TEXT_NAMES = {n for n, (k, _) in T.RFC_PROPS.items() if k == "text"}
 
 
 def region_rcb_input(case):
-    """RC-B: Contentline.parts() removes one level of backslash escaping (\\, \; \: \\\\) from the whole line and maps literal
+    r"""RC-B: Contentline.parts() removes one level of backslash escaping (\, \; \: \\) from the whole line and maps literal
     %2C/%3A/%3B/%5C before the typed decoder runs.  A single-level TEXT escape (\; \, \n) survives that by luck; everything
     else does not.  Region (per unfolded input line): a backslash or placeholder in the parameter part; in a TEXT-typed value
     (RFC text names, X- and unknown names): two consecutive backslashes, backslash-colon or a placeholder; in any other value
@@ -344,6 +344,17 @@ def _retext(tree, draw, hostile=None):
             continue
         if q[0].upper() == "RESOURCES":
             continue
+        # calendar dates span 0001-9999: move some date / floating / UTC values to early and late years
+        if spec["k"] in ("date", "naive", "utc") and draw(st.integers(0, 3)) == 0:
+            v = list(spec["v"])
+            v[0] = draw(st.sampled_from([1, 2, 99, 100, 753, 999, 1000, 1582, 1601, 1899, 2400, 9999]))
+            spec["v"] = v
+            q[1] = spec
+        # unquoted parameter values may carry blanks anywhere (RFC 5545 paramtext)
+        if len(q) > 2 and q[2] and draw(st.integers(0, 2)) == 0:
+            k0 = sorted(q[2])[0]
+            blank = draw(st.sampled_from([" x", "x ", " ", "a  b", " lead and trail ", "\tx"]))
+            q[2] = dict(q[2], **{k0: ([blank, "y"] if isinstance(q[2][k0], list) else blank)})
         ps.append(q)
     t["p"] = ps
     t["s"] = [_retext(s, draw, hostile) for s in tree["s"]]
